@@ -70,6 +70,20 @@ def dispatcher(prog: Program, direction: str):
             continue
         if any(isinstance(n, _ast.Name) and n.id == "_HANDLERS" for n in _ast.walk(fi.node)) and len(fi.params) >= 2:
             cands.append(fi)
+    if not cands:
+        # the scan of the table may have been moved into a private helper that only picks the class: the dispatch function
+        # is then its (single) two-parameter caller, read with that helper in place
+        scanners = [fi for fi in mod.functions.values() if not fi.node.decorator_list and fi.name.startswith("_") and any(isinstance(n, _ast.Name) and n.id == "_HANDLERS" for n in _ast.walk(fi.node))]
+        if len(scanners) == 1:
+            sc = scanners[0]
+            callers = [fi for fi in mod.functions.values() if not fi.node.decorator_list and len(fi.params) >= 2 and fi is not sc and any(isinstance(n, _ast.Call) and isinstance(n.func, _ast.Name) and n.func.id == sc.name for n in _ast.walk(fi.node))]
+            if len(callers) == 1:
+                f2 = callers[0]
+                key = (id(prog), f2.qualname, 0, f2.bound.qualname if f2.bound else None)
+                if not getattr(prog, "_dispatch_spliced", {}).get(key):
+                    P._cache[key] = P.splice_helpers(prog, P.paths_of(prog, f2), only=lambda fi: fi is sc)
+                    prog.__dict__.setdefault("_dispatch_spliced", {})[key] = True
+                return f2
     if len(cands) != 1:
         raise AnalysisError(f"anchor: the dispatch function over {api}._HANDLERS not found ({[c.name for c in cands]})")
     return cands[0]
